@@ -184,7 +184,7 @@ func genScenario(rnd *rand.Rand, maxRows int) *Scenario {
 	for _, sh := range shapes {
 		t := &Table{Name: sh.name, Cols: sh.cols}
 		n := rnd.Intn(maxRows + 1)
-		if rnd.Intn(8) == 0 {
+		if rnd.Intn(8) == 0 || cornerEmptyKey && rnd.Intn(2) == 0 {
 			n = rnd.Intn(2) // empty and single row tables (key() becomes possible)
 		}
 		uniq := -1
@@ -1046,7 +1046,7 @@ func (g *Gen) gen(d int) *Q {
 	switch r := g.rnd.Intn(100); {
 	case r < 55:
 		q = g.unary(g.gen(d - 1))
-	case r < 58:
+	case r < 58 || cornerWhole && r < 70:
 		if !cornerWhole {
 			q = g.anyTable()
 		} else if q = g.sumWhole(); q == nil {
